@@ -59,10 +59,10 @@ func NewUintListDecoder(reuseRecords bool) *UintListDecoder {
 
 func (d *UintListDecoder) makeUintSlice(n uint32) []uint32 {
 	if d.sl == nil {
-		return make([]uint32, 0, n)
+		return make([]uint32, 0, preallocCap(n))
 	}
 	if n > uint32(cap(d.sl)) {
-		d.sl = make([]uint32, n)
+		d.sl = make([]uint32, 0, preallocCap(n))
 	}
 	return d.sl[:0]
 }
